@@ -15,8 +15,9 @@ func init() {
 		decided: "R1 the host key used to insert and to look up a site is case-folded and port-stripped by the same function on every data path; " +
 			"R2 the matched site's handler chain runs only when a site was found, the not-found branch always writes the site-not-found response (404, 421 for HTTP/2+) and runs no handler; " +
 			"R3 host lookup order: exact name before wildcard candidates, wildcard ladder ascending and cumulative with first hit returned, request host before fallback hosts and fallbacks only while nothing matched; " +
-			"R4 path matching walks one byte per step, remembers the last node that has a site, and is guarded by nothing else.",
-		notDecided: "that these shapes compute the stated precedence for all host sets (value semantics of the trie); declaration-order independence; path-prefix trimming arithmetic.",
+			"R4 path matching walks one byte per step, remembers the last node that has a site, and is guarded by nothing else; " +
+			"R5 every write of trie state on the Insert path commutes (idempotent insert-if-absent of a fresh node, the key's own terminal node, a constant, or a monotone accumulation), a necessary condition of declaration-order independence.",
+		notDecided: "that these shapes compute the stated precedence for all host sets (value semantics of the trie); declaration-order independence beyond commutativity of the writes (R5); path-prefix trimming arithmetic.",
 	})
 }
 
@@ -28,6 +29,7 @@ func runC01(r *Report, p *Program) {
 	c01R2(h)
 	c01R3(h)
 	c01R4(h)
+	c01R5(h)
 }
 
 func isEdgesMapLookup(in ssa.Instruction) (*ssa.Lookup, bool) {
@@ -554,4 +556,270 @@ func isLenPositive(v ssa.Value) bool {
 		return false
 	}
 	return (kind == "gt" && c == 0) || (kind == "ne" && c == 0)
+}
+
+// c01R5: a structural necessary condition of "the outcome never depends on the order in which the sites were
+// declared".  The trie is built by repeated Insert calls; its final state is independent of their order iff the
+// writes commute.  Every write of trie state performed on the Insert path must therefore be one of
+//   (a) a map insert of a freshly made node on the 'absent' edge of a lookup of that same key (idempotent),
+//   (b) the site/path fields of the key's own terminal node (a location no other key writes), stored outside
+//       the walk loop or under the terminal test of the recursion,
+//   (c) a constant (all writers agree), or
+//   (d) a monotone accumulation: the stored value is combined with the field's current value by + | & || &&,
+//       or the store is guarded by a comparison of the new value with the field's current value (max/min).
+// A plain store of a per-key value into a location shared between keys (`t.depth = n`) makes the last declared
+// site win, whatever the field is used for on the lookup side; fields never read on the Match path are ignored.
+func c01R5(h H) {
+	r := h.r
+	r.Rule("R5", "declaration-order independence of the trie: every write of vhostTrie state reachable from Insert is an idempotent map insert of a fresh node behind the absent-test of the same key, the site/path store of the key's own terminal node, a constant, or a monotone accumulation over the field's current value; no per-key value is plainly stored into state shared between keys that the lookup side reads", 4)
+	ins := h.fn("R5", hs, "(*vhostTrie).Insert")
+	if ins == nil {
+		return
+	}
+	isTrie := func(t types.Type) bool {
+		if p, ok := t.Underlying().(*types.Pointer); ok {
+			t = p.Elem()
+		}
+		n, ok := t.(*types.Named)
+		return ok && n.Obj().Name() == "vhostTrie"
+	}
+	// functions on the Insert path (static module callees, transitively)
+	var fns []*ssa.Function
+	seen := map[*ssa.Function]bool{}
+	var add func(f *ssa.Function)
+	add = func(f *ssa.Function) {
+		if f == nil || seen[f] || f.Blocks == nil || fnPkg(f) == nil || !isModPkg(fnPkg(f).Path()) {
+			return
+		}
+		seen[f] = true
+		fns = append(fns, f)
+		for _, c := range withClosures(f) {
+			allInstrs(c, func(in ssa.Instruction) {
+				if cc := callOf(in); cc != nil {
+					add(cc.StaticCallee())
+				}
+			})
+		}
+	}
+	add(ins)
+	// fields the lookup side reads
+	readByMatch := map[string]bool{}
+	mseen := map[*ssa.Function]bool{}
+	var madd func(f *ssa.Function)
+	madd = func(f *ssa.Function) {
+		if f == nil || mseen[f] || f.Blocks == nil || fnPkg(f) == nil || !isModPkg(fnPkg(f).Path()) {
+			return
+		}
+		mseen[f] = true
+		allInstrs(f, func(in ssa.Instruction) {
+			if fa, ok := in.(*ssa.FieldAddr); ok && isTrie(fa.X.Type()) {
+				readByMatch[fieldName(fa.X.Type(), fa.Field)] = true
+			}
+			if cc := callOf(in); cc != nil {
+				madd(cc.StaticCallee())
+			}
+		})
+	}
+	madd(h.p.Func(hs, "(*vhostTrie).Match"))
+	fresh := func(v ssa.Value) bool {
+		switch t := v.(type) {
+		case *ssa.Alloc:
+			return true
+		case *ssa.Call:
+			f := t.Call.StaticCallee()
+			return f != nil && alwaysFreshResult(f)
+		}
+		return false
+	}
+	for _, fn := range fns {
+		recursive := false
+		allInstrs(fn, func(in ssa.Instruction) {
+			if cc := callOf(in); cc != nil && cc.StaticCallee() == fn {
+				recursive = true
+			}
+		})
+		allInstrs(fn, func(in ssa.Instruction) {
+			switch st := in.(type) {
+			case *ssa.MapUpdate:
+				if !readsField(st.Map, "edges") {
+					return
+				}
+				// absent edge of a lookup on the same map expression with the same key
+				var okv ssa.Value
+				allInstrs(fn, func(x ssa.Instruction) {
+					if l, ok := x.(*ssa.Lookup); ok && readsField(l.X, "edges") && sameKeyValue(l.Index, st.Key) {
+						if e := commaOkOf(l); e != nil {
+							okv = e
+						}
+					}
+				})
+				ok := false
+				if okv != nil {
+					ok = onlyVia(fn, st, guardEdges(fn, false, func(v ssa.Value) bool { return v == okv }))
+				}
+				vals := valuesAt(fn, st.Value, st)
+				fr := len(vals) > 0
+				for _, v := range vals {
+					fr = fr && fresh(v)
+				}
+				r.Check(ok && fr, "R5", shortFunc(fn)+"/edges-insert-if-absent", st.Pos(),
+					"a node is added to the edge map only when the key is absent, and it is a fresh empty node (re-inserting or inserting in another order yields the same map)", describe(st.Key), describe(st.Value))
+			case *ssa.Store:
+				fa, ok := st.Addr.(*ssa.FieldAddr)
+				if !ok || !isTrie(fa.X.Type()) {
+					return
+				}
+				if _, isAlloc := rootOf(fa.X).(*ssa.Alloc); isAlloc {
+					return // initialising a node that is being created
+				}
+				name := fieldName(fa.X.Type(), fa.Field)
+				if !readByMatch[name] {
+					return
+				}
+				construct := shortFunc(fn) + "/store:" + name
+				if name == "site" || name == "path" {
+					// the key's own terminal node: not inside the walk loop; in the recursive form under the
+					// 'nothing left of the path' test
+					ok := !inLoop(st.Block())
+					if ok && recursive {
+						term := guardEdges(fn, true, func(v ssa.Value) bool {
+							if x, eq, lit, ok := strCmp(v); ok && eq && lit == "" {
+								_, isP := paramRoot(x)
+								return isP
+							}
+							return false
+						})
+						for e := range guardEdges(fn, true, func(v ssa.Value) bool {
+							x, kind, c, ok := intCmp(v)
+							if !ok || !(kind == "eq" && c == 0) {
+								return false
+							}
+							call, isCall := x.(*ssa.Call)
+							return isCall && calleeName(&call.Call) == "builtin.len"
+						}) {
+							term[e] = true
+						}
+						ok = onlyVia(fn, st, term)
+					}
+					if ok && !recursive {
+						// after the walk: no loop is reachable from the store
+						reach(fn, st, cut{}, func(x ssa.Instruction) bool {
+							if inLoop(x.Block()) {
+								ok = false
+								return false
+							}
+							return true
+						})
+					}
+					r.Check(ok, "R5", construct, st.Pos(), "the site and its path are stored only at the key's own terminal node (after the whole path was walked), a location no other key writes")
+					return
+				}
+				// shared state: constant, accumulation, or max/min-guarded
+				ok = false
+				why := "plain store of a per-key value"
+				if _, isC := st.Val.(*ssa.Const); isC {
+					ok, why = true, "constant"
+				}
+				loadsSame := func(v ssa.Value) bool {
+					u, isU := v.(*ssa.UnOp)
+					if !isU || u.Op != token.MUL {
+						return false
+					}
+					f2, isF := u.X.(*ssa.FieldAddr)
+					return isF && f2.Field == fa.Field && isTrie(f2.X.Type())
+				}
+				if b, isB := st.Val.(*ssa.BinOp); isB && !ok {
+					switch b.Op {
+					case token.ADD, token.OR, token.AND:
+						if loadsSame(b.X) || loadsSame(b.Y) {
+							ok, why = true, "accumulation "+b.Op.String()
+						}
+					}
+				}
+				if ph, isPhi := st.Val.(*ssa.Phi); isPhi && !ok {
+					// t.f = t.f || x lowers to a φ of a constant and x
+					all := true
+					for _, e := range ph.Edges {
+						if _, isC := e.(*ssa.Const); !isC && !loadsSame(e) {
+							if _, isBool := e.Type().Underlying().(*types.Basic); !isBool || e.Type().Underlying().(*types.Basic).Kind() != types.Bool {
+								all = false
+							}
+						}
+					}
+					if all {
+						ok, why = true, "boolean accumulation"
+					}
+				}
+				if !ok {
+					for _, g := range dominatingGuards(fn, nil, st) {
+						if b, isB := g.Cond.(*ssa.BinOp); isB {
+							switch b.Op {
+							case token.LSS, token.GTR, token.LEQ, token.GEQ:
+								if (loadsSame(b.X) && sameKeyValue(b.Y, st.Val)) || (loadsSame(b.Y) && sameKeyValue(b.X, st.Val)) {
+									ok, why = true, "max/min update"
+								}
+							}
+						}
+					}
+				}
+				r.Check(ok, "R5", construct, st.Pos(), "trie state shared between keys and read by the lookup is updated commutatively (constant, accumulation or max/min), so the result does not depend on declaration order", why, describe(st.Val))
+			}
+		})
+	}
+}
+
+// alwaysFreshResult: every return of f yields a value allocated in f (a constructor).
+func alwaysFreshResult(f *ssa.Function) bool {
+	if f.Blocks == nil {
+		return false
+	}
+	rv := returnValues(f, 0)
+	if len(rv) == 0 {
+		return false
+	}
+	for _, v := range rv {
+		if _, ok := rootOf(v).(*ssa.Alloc); !ok {
+			return false
+		}
+	}
+	return true
+}
+
+// sameKeyValue: the two SSA values are the same register, or loads/conversions of the same thing.
+func sameKeyValue(a, b ssa.Value) bool {
+	if a == b {
+		return true
+	}
+	switch x := a.(type) {
+	case *ssa.Convert:
+		if y, ok := b.(*ssa.Convert); ok {
+			return sameKeyValue(x.X, y.X)
+		}
+	case *ssa.ChangeType:
+		if y, ok := b.(*ssa.ChangeType); ok {
+			return sameKeyValue(x.X, y.X)
+		}
+	case *ssa.Index:
+		if y, ok := b.(*ssa.Index); ok {
+			return sameKeyValue(x.X, y.X) && sameKeyValue(x.Index, y.Index)
+		}
+	case *ssa.Const:
+		if y, ok := b.(*ssa.Const); ok {
+			return x.Value != nil && y.Value != nil && x.Value.ExactString() == y.Value.ExactString()
+		}
+	case *ssa.Call:
+		// pure string helpers applied to the same operands
+		if y, ok := b.(*ssa.Call); ok && calleeName(&x.Call) == calleeName(&y.Call) && len(x.Call.Args) == len(y.Call.Args) {
+			switch calleeName(&x.Call) {
+			case "strings.ToLower", "strings.TrimSpace", "builtin.len":
+				for i := range x.Call.Args {
+					if !sameKeyValue(x.Call.Args[i], y.Call.Args[i]) {
+						return false
+					}
+				}
+				return true
+			}
+		}
+	}
+	return false
 }
